@@ -68,6 +68,29 @@ func DeclaredBinary(in []byte) uint64 {
 	return sum
 }
 
+// DeclaredBinarySeq follows the frames from offset 0 the way a parser does and sums the total
+// body lengths of the consistent headers on that path. It decides whether an input is skipped
+// as "consistently declares more than MaxDeclared" (DeclaredBinary, which looks at every
+// offset, only loosens the allocation bound).
+func DeclaredBinarySeq(in []byte) uint64 {
+	var sum uint64
+	off := 0
+	for off+24 <= len(in) && in[off] == 0x80 {
+		kl := uint64(binary.BigEndian.Uint16(in[off+2 : off+4]))
+		el := uint64(in[off+4])
+		total := uint64(binary.BigEndian.Uint32(in[off+8 : off+12]))
+		if kl+el > total {
+			break
+		}
+		sum += total
+		if total > uint64(len(in)) {
+			break
+		}
+		off += 24 + int(total)
+	}
+	return sum
+}
+
 // InconsistentFirstFrame reports whether the input starts with a header whose total body is
 // shorter than key + extras.
 func InconsistentFirstFrame(in []byte) bool {
@@ -109,13 +132,18 @@ type Result struct {
 
 // Check parses in until the parser reports an error (EOF at the latest) under the monitors.
 func Check(bin bool, in []byte, step int) (res Result) {
-	var declared uint64
+	var declared, seq uint64
 	if bin {
 		declared = DeclaredBinary(in)
+		seq = DeclaredBinarySeq(in)
+		if declared > 16<<20 {
+			declared = 16 << 20 // phantom headers inside keys / opaques only loosen the bound so far
+		}
 	} else {
 		declared = DeclaredText(in)
+		seq = declared
 	}
-	if declared > MaxDeclared {
+	if seq > MaxDeclared {
 		res.Skipped = true
 		return
 	}
@@ -140,9 +168,12 @@ func Check(bin bool, in []byte, step int) (res Result) {
 		res.Parses++
 		if err != nil {
 			res.LastErr = err.Error()
-			if isTextClientError(err.Error()) && res.Parses < maxParses {
-				// the server answers these and keeps parsing
-				continue
+			if isTextClientError(err.Error()) {
+				// the server answers these and keeps parsing: every such error must have consumed input
+				if res.Parses < maxParses {
+					continue
+				}
+				res.Violation = "parser keeps reporting a client error without consuming input (the server loop would spin)"
 			}
 			break
 		}
